@@ -1,21 +1,199 @@
-(* C03 — property theorems only.  Each is closed by `exact <lemma>` and followed by Print Assumptions. *)
-From Coq Require Import List NArith ZArith Bool.
+(* C03 — property theorems only.  Each is closed by `exact <lemma>` and followed by Print Assumptions.
+
+   Vocabulary: `run v ops` = what every Flush of the history `ops` emits in the model (variant v: v_fixed =
+   with fixes/C03-discard-pending-on-last-match-stopped.patch, v_lexname = tie-break on name proper);
+   `flush_out v ops ord` = what a Flush emits after the history `ops` (ord = iteration order of the pending set);
+   `net ops` = the datastore / upstream state the history leaves (fold); `expected_tiers D e` = the specification.
+
+   WHAT IS NOT PROVED: the refinement "for the fixed variant, every update emitted after any history equals
+   expected_tiers of the net state" (needs the representation invariant of the sorter model carried through
+   UpdatePolicy's branches; the ingredients - strict total orders, set behaviour of the btree model, uniqueness
+   of the sorted enumeration - are proved below).  That statement is checked on every run against the real code's
+   outputs by the oracle `ok_history`; the theorems marked _partial are therefore about the specification function
+   the oracle compares with, not yet about the model. *)
+From Coq Require Import List NArith ZArith Bool Sorted.
 From Verif.Common Require Import Labels.
-From Verif.C03 Require Import Model Spec Witness.
+From Verif.C03 Require Import Model Spec Witness Order BT Split Resolver SpecProps.
 Import ListNotations.
 Open Scope N_scope.
 
+(* ---------------------------------------------------------------- the comparison functions *)
+
+(* TierLess is a strict total order on tier keys *)
+Theorem c03_tier_less_strict_total :
+  (forall a, tier_less a a = false)
+  /\ (forall a b c, tier_less a b = true -> tier_less b c = true -> tier_less a c = true)
+  /\ (forall a b, tier_less a b = false -> tier_less b a = false -> a = b).
+Proof. exact (conj tier_less_irrefl (conj tier_less_trans tier_less_total)). Qed.
+Print Assumptions c03_tier_less_strict_total.
+
+(* PolKVLess (either tie-break; the joined-string one for key components without '/') is a strict order, total
+   on distinct keys: two entries neither of which is less have the same key and the same order *)
+Theorem c03_polkv_less_strict_total : forall v,
+  (forall a, polkv_less v a a = false)
+  /\ (forall a b c, polkv_less v a b = true -> polkv_less v b c = true -> polkv_less v a c = true)
+  /\ (forall a b, key_wf v (fst a) -> key_wf v (fst b) ->
+        polkv_less v a b = false -> polkv_less v b a = false ->
+        fst a = fst b /\ m_order (snd a) = m_order (snd b)).
+Proof. exact (fun v => conj (polkv_less_irrefl v) (conj (polkv_less_trans v) (polkv_less_total v))). Qed.
+Print Assumptions c03_polkv_less_strict_total.
+Example c03_key_wf_inhabited : key_wf (mkVariant true false) wab.
+Proof. right. split; unfold no_slash; simpl; intuition discriminate. Qed.
+
+(* the specification's orders (valid first / ascending order, unset last / name[, namespace, kind]) are the Go
+   comparison functions (PolKVLess: with the name-proper tie-break) *)
+Theorem c03_spec_orders_are_go_orders :
+  (forall a b, tier_before a b = tier_less a b)
+  /\ (forall fx a b, pol_before a b = polkv_less (mkVariant fx true) a b).
+Proof. exact (conj tier_before_is_tier_less pol_before_is_polkv_less_lex). Qed.
+Print Assumptions c03_spec_orders_are_go_orders.
+
+(* the pinned joined-string tie-break agrees with name order whenever the two names differ at a position both
+   have (it differs only when one name extends the other) *)
+Theorem c03_tiebreak_agrees_partial : forall a b,
+  diverge (pk_name a) (pk_name b) = true -> key_ltb_str a b = key_ltb_lex a b.
+Proof. exact key_ltb_str_is_lex_when_names_diverge. Qed.
+Print Assumptions c03_tiebreak_agrees_partial.
+
+(* ... and is NOT name order otherwise: "a-b" is emitted before "a" *)
+Theorem c03_tiebreak_name_order_refuted : forall fx,
+  ok_history tiebreak_history (map sort_outs (run (mkVariant fx false) tiebreak_history)) = false.
+Proof. exact tiebreak_pinned_rejected. Qed.
+Print Assumptions c03_tiebreak_name_order_refuted.
+
+(* ---------------------------------------------------------------- the btree model is a finite set *)
+
+(* On a strictly sorted sequence: ReplaceOrInsert of an item no stored item is equivalent to adds exactly it and
+   keeps the sequence sorted; Delete of a stored item removes exactly it; a strictly sorted sequence is determined
+   by its elements ("the sorted permutation is unique"). *)
+Theorem c03_btree_is_a_set : forall (A : Type) (less : A -> A -> bool),
+  (forall a, less a a = false) ->
+  (forall a b c, less a b = true -> less b c = true -> less a c = true) ->
+  (forall x l, SS less l -> (forall y, In y l -> ~ equiv less x y) ->
+     SS less (bt_insert less x l) /\ forall y, In y (bt_insert less x l) <-> y = x \/ In y l)
+  /\ (forall x l, SS less l -> In x l ->
+     SS less (bt_delete less x l) /\ forall y, In y (bt_delete less x l) <-> In y l /\ y <> x)
+  /\ (forall l1 l2, SS less l1 -> SS less l2 -> (forall x, In x l1 <-> In x l2) -> l1 = l2).
+Proof.
+  exact (fun A less irr tr =>
+    conj (fun x l H NE => conj (bt_insert_SS less tr x l H NE) (fun y => bt_insert_In_iff less x l y NE))
+   (conj (fun x l H I => conj (SS_sub_delete less x l H) (fun y => bt_delete_In_iff less irr x l y H I))
+         (SS_unique less irr tr))).
+Qed.
+Print Assumptions c03_btree_is_a_set.
+
+(* ---------------------------------------------------------------- after every history, both variants *)
+
+(* the resolver's multidicts, endpoint set and in-sync flag are the fold of the history *)
+Theorem c03_match_state_is_fold : forall v ops, base_inv (state_after v ops) (net ops).
+Proof. exact base_inv_run. Qed.
+Print Assumptions c03_match_state_is_fold.
+
+(* Flush is gated on in-sync *)
+Theorem c03_nothing_before_insync : forall v ops ord, d_insync (net ops) = false -> flush_out v ops ord = [].
+Proof. exact not_in_sync_no_output. Qed.
+Print Assumptions c03_nothing_before_insync.
+
+(* tier lists go to endpoints that exist, "removed" to endpoints that do not *)
+Theorem c03_update_shape : forall v ops ord e r,
+  In (e, r) (flush_out v ops ord) ->
+  d_insync (net ops) = true /\
+  match r with
+  | Some ts => In e (d_eps (net ops)) /\
+               ts = endpoint_tiers (flush_pending v (state_after v ops) ord)
+                                   (sorter_sorted (srt (flush_pending v (state_after v ops) ord))) e
+  | None => ~ In e (d_eps (net ops))
+  end.
+Proof. exact flush_out_shape. Qed.
+Print Assumptions c03_update_shape.
+
+(* only policies that currently apply to THIS local endpoint are sent to it (hence only active policies), and
+   no tier is sent empty *)
+Theorem c03_only_active_sent : forall v ops ord e ts t,
+  In (e, Some ts) (flush_out v ops ord) -> In t ts ->
+  to_pols t <> [] /\ forall k m, In (k, m) (to_pols t) -> matched (net ops) k e = true.
+Proof.
+  exact (fun v ops ord e ts t H It =>
+           conj (no_empty_tier_sent v ops ord e ts t H It)
+                (fun k m Ik => only_matching_sent v ops ord e ts t k m H It Ik)).
+Qed.
+Print Assumptions c03_only_active_sent.
+Example c03_only_active_sent_inhabited :
+  flush_out (mkVariant true false) [InSync; EpUpd 1 true; PolUpd wp1 (Some (wpol 1)); MatchStart wp1 1] [] =
+  [(1, Some [mkTout default_tier None 0 [(wp1, extract_meta (wpol 1))]])].
+Proof. vm_compute. reflexivity. Qed.
+
+(* flush_out is what `run` records for a trailing Flush *)
+Theorem c03_run_snoc_flush : forall v ops ord, run v (ops ++ [Flush ord]) = run v ops ++ [flush_out v ops ord].
+Proof. exact run_snoc_flush. Qed.
+Print Assumptions c03_run_snoc_flush.
+
+(* ---------------------------------------------------------------- direction / class split *)
+
+(* tierInfoToProtoTierInfo (model) IS the specification's split, for every tier list: untracked / pre-DNAT /
+   normal (+ forward when ApplyOnForward) by the policy's class, ingress / egress by its types, pre-DNAT ingress
+   only, list order preserved, tiers left empty dropped *)
+Theorem c03_direction_split : forall ts, to_proto ts = spec_split ts.
+Proof. exact to_proto_is_spec_split. Qed.
+Print Assumptions c03_direction_split.
+
+Theorem c03_direction_split_meaning : forall t sel action eg pt k,
+  In pt (spec_tier t sel action eg) ->
+  (In k (pt_in pt) <-> exists m, In (k, m) (to_pols t) /\ sel m = true /\ m_in m = true)
+  /\ (eg = true -> (In k (pt_eg pt) <-> exists m, In (k, m) (to_pols t) /\ sel m = true /\ m_eg m = true))
+  /\ (eg = false -> pt_eg pt = []).
+Proof.
+  exact (fun t sel action eg pt k H =>
+    conj (spec_tier_ingress t sel action eg pt k H)
+   (conj (fun E => spec_tier_egress t sel action pt k (eq_ind eg (fun b => In pt (spec_tier t sel action b)) H true E))
+         (fun E => spec_tier_prednat_no_egress t sel action pt
+                     (eq_ind eg (fun b => In pt (spec_tier t sel action b)) H false E)))).
+Qed.
+Print Assumptions c03_direction_split_meaning.
+
+(* ---------------------------------------------------------------- the specification function (see header) *)
+
+(* exactly the policies of the datastore that match the endpoint, each with the metadata it carries *)
+Theorem c03_exact_set_partial : forall ops e k m,
+  let D := net ops in
+  (exists t, In t (expected_tiers D e) /\ In (k, m) (to_pols t)) <->
+  (exists pv, In (k, pv) (d_pols D) /\ m = extract_meta pv /\ matched D k e = true).
+Proof. exact expected_exact_set. Qed.
+Print Assumptions c03_exact_set_partial.
+
+(* grouped by tier *)
+Theorem c03_grouped_by_tier_partial : forall ops e t k m,
+  In t (expected_tiers (net ops) e) -> In (k, m) (to_pols t) -> m_tier m = to_name t.
+Proof. exact expected_grouped. Qed.
+Print Assumptions c03_grouped_by_tier_partial.
+
+(* tiers strictly ascending: existing before missing, order (unset last), name; fields from the datastore *)
+Theorem c03_tier_order_partial : forall ops e,
+  let D := net ops in
+  SSb tier_before (map (fun t => tier_key D (to_name t)) (expected_tiers D e))
+  /\ forall t, In t (expected_tiers D e) ->
+       to_order t = tk_order (tier_key D (to_name t)) /\ to_action t = tier_action D (to_name t).
+Proof. exact (fun ops e => conj (expected_tier_order ops e) (expected_tier_fields ops e)). Qed.
+Print Assumptions c03_tier_order_partial.
+
+(* policies strictly ascending inside a tier: order (unset last), name, namespace, kind *)
+Theorem c03_policy_order_partial : forall ops e t,
+  In t (expected_tiers (net ops) e) -> SSb pol_before (to_pols t).
+Proof. exact expected_policy_order. Qed.
+Print Assumptions c03_policy_order_partial.
+
+(* ---------------------------------------------------------------- the defect *)
+
 (* The pinned OnPolicyMatchStopped violates the property: on `stale_history` (match p1, unmatch it before the
    flush, flush, re-order p1 while inactive, match it again) the specification oracle rejects what the pinned
-   model emits - p1 keeps its old position - and accepts what the repaired model emits. *)
+   model emits - p1 keeps its old position - ... *)
 Theorem c03_pending_stale_refuted : forall lx,
   ok_history stale_history (map sort_outs (run (mkVariant false lx) stale_history)) = false.
 Proof. exact stale_history_pinned_rejected. Qed.
 Print Assumptions c03_pending_stale_refuted.
 
-(* The pinned tie-break (compare the joined string "name/namespace/kind") is not name order: "a-b" is emitted
-   before "a". *)
-Theorem c03_tiebreak_name_order_refuted : forall fx,
-  ok_history tiebreak_history (map sort_outs (run (mkVariant fx false) tiebreak_history)) = false.
-Proof. exact tiebreak_pinned_rejected. Qed.
-Print Assumptions c03_tiebreak_name_order_refuted.
+(* ... and accepts what the repaired model emits on the same history *)
+Theorem c03_pending_fixed_on_witness : forall lx,
+  ok_history stale_history (map sort_outs (run (mkVariant true lx) stale_history)) = true.
+Proof. exact stale_history_fixed_accepted. Qed.
+Print Assumptions c03_pending_fixed_on_witness.
